@@ -36,6 +36,10 @@ import (
 func TestStatefulHammer(t *testing.T) { hammer(t, statefulEntries(), "stateful_") }
 
 func statefulEntries() []*entry {
+	return append(gatedEntries(), exhaustedEntries()...)
+}
+
+func gatedEntries() []*entry {
 	return []*entry{
 		gatedFSMEntry("gated:pppoe.LCPStateMachine", "pppoe.LCPStateMachine.ReceivePacket", "lcp", lcpGoodReq),
 		gatedFSMEntry("gated:pppoe.IPCPStateMachine", "pppoe.IPCPStateMachine.ReceivePacket", "ipcp", ipcpGoodReq),
